@@ -4,8 +4,11 @@ Protocol line (model `pd`, lean/PygModel/PerDictDriver.lean):
   (pd call (L S:param*) (L S:on*) (D (name cell)*) (D (name input)*) <expiry input> T:<today>)
       -> ok (T <result> (L (T arg*)*))       result = (T S:value v) | (T S:norows data|N) | (T S:table <table>)
   input = a cell (scalar) or a table; the lifted function is f(*args) = ('f',) + args, every call is logged.
-"today" (dt(0) inside _value_output) is injected: the harness replaces the module-level name `dt` of
-pyg_base._perdictable for the duration of the call, so that replays do not depend on the clock.
+  (pd calld ...same arguments...)   perdictable(f, on=...) WITHOUT `defaults=`: the (D (name cell)*) are the PYTHON defaults of f's
+      parameters, which the code then takes for `defaults` (argspec_defaults, _perdictable.py:306); the model is `call` on them
+"today" (dt(0) inside _value_output) is injected: the harness wraps the module-level name `dt` of pyg_base._perdictable for the
+duration of the call so that exactly the call dt(0) returns the injected day (every other dt(...) call is the real one), so that
+replays do not depend on the clock.
 """
 import datetime, logging
 from collections import Counter
@@ -30,14 +33,18 @@ LEAN_FILES = ['Basic', 'Cmp', 'Sort', 'TableBasic', 'Join', 'PerDict', 'PerDictD
 RULE = 'distinct protocol lines (one lifted call) with at least one table input on which the implementation returned'
 TRUSTED = ['correspondence harness (pv.engine, pv.proto) and generators / reference evaluation of pv.props.c20',
            'Lean driver parser/printer (PygModel/Basic.lean, PerDictDriver.lean)']
-ASSUMPTIONS = ['"today" is injected by rebinding pyg_base._perdictable.dt during the call (the code reads the clock through dt(0))',
+ASSUMPTIONS = ['"today" is injected by wrapping pyg_base._perdictable.dt during the call: dt(0) - and only dt(0) - returns the injected MIDNIGHT (the code reads the clock through dt(0): "in the past" means before today 00:00, an expiry of today 09:00 is not past at 15:00)',
+               '"defaults" of the statement is the `defaults=` argument or, when it is not given, the python keyword defaults of f (op calld); every parameter of f is supplied as an input',
+               'the property quantifies expiry over PREVIOUSLY COMPUTED keys: a key that the `data` table lacks but that carries a past expiry (expiry scalar, or an expiry table wider than the data table) keeps the filled-in None without a call when if_none is False (documented: if_none) - such rows are generated (tag +expiry-beyond-data for expiry tables; any scalar expiry beside a data table), compared with the model (which follows the code), and exempt from the kept/computed law',
                'the lifted function is pure apart from the call log; python keyword binding of the row to f is assumed (kwargs_support, C18)',
                'renames None or a dict parameter -> column, if_none False or True, output_is_input=True, include_inputs=False, a function without .output; keys unique per table (the code only warns otherwise)',
                'row order among rows with equal `on` keys (only possible when a table lacks an `on` column) depends on a python set order in dict_concat and is not compared']
 CALL_TIMEOUT = 8
 D = datetime.datetime
 TODAY = D(2024, 6, 15)
-EXPIRIES = [D(2000, 1, 1), D(3000, 1, 1), TODAY, TODAY - datetime.timedelta(days=1), TODAY + datetime.timedelta(days=1), None]
+EXPIRIES = [D(2000, 1, 1), D(3000, 1, 1), TODAY, TODAY - datetime.timedelta(days=1), TODAY + datetime.timedelta(days=1), None,
+            TODAY + datetime.timedelta(hours=9), TODAY - datetime.timedelta(minutes=1),                 # times of day around "today" = midnight
+            datetime.date(2000, 1, 1), datetime.date(3000, 1, 1), TODAY.date()]                          # expiry DATES given as datetime.date
 KUNIV = [1, 2, 3, 4, 'x', 'y', None, 2.0, 5.0, D(2020, 1, 1)]
 JUNIV = ['u', 'v', 1]
 VALS = [0, 1, 2, 7, 'p', 'q', None, 0.5, 2.5]
@@ -158,13 +165,19 @@ def gen_case(rng, full=False):
                     renames.append((p, 'missing'))
     expiry = None
     tag = 'scalars' if not has_table else 'tables%d' % kinds.count('t')
+    dkeys = None
     if has_table and rng.random() < 0.5:
-        inputs.append(('data', make_table(rng, on, rand_keys(rng, on, base), 'data', ['old1', 'old2', 'old3', None])))
+        dkeys = rand_keys(rng, on, base)
+        inputs.append(('data', make_table(rng, on, dkeys, 'data', ['old1', 'old2', 'old3', None])))
         tag += '+data'
     r = rng.random()
     if has_table and r < 0.45:
-        expiry = make_table(rng, on, rand_keys(rng, on, base), rng.choice(['data', 'expiry']), EXPIRIES)
+        # the property assigns an expiry to previously computed keys: mostly the expiry table is keyed inside the data table
+        ekeys = [k for k in dkeys if rng.random() < 0.8] if (dkeys is not None and rng.random() < 0.7) else rand_keys(rng, on, base)
+        expiry = make_table(rng, on, ekeys, rng.choice(['data', 'expiry']), EXPIRIES)
         tag += '+expiry-table'
+        if dkeys is not None and any(tuple(ckey(x) for x in k) not in set(tuple(ckey(x) for x in q) for q in dkeys) for k in ekeys):
+            tag += '+expiry-beyond-data'          # an expiry for a key without previous value: outside the quantifier, see ASSUMPTIONS
     elif r < 0.6:
         expiry = rng.choice(EXPIRIES)
         tag += '+expiry-scalar'
@@ -175,8 +188,18 @@ def gen_case(rng, full=False):
     if_none = has_table and rng.random() < 0.15
     if if_none:
         tag += '+if_none'
+    # perdictable(f, on=keys) as the statement spells it, without `defaults=`: the python defaults of f are the defaults
+    fdef = not (renames or if_none) and rng.random() < 0.3
+    if has_table and not fdef and not (renames or if_none) and rng.random() < 0.03:
+        params = params + ['z']                 # a parameter of f without an input: TypeError as soon as f is called
+        tag += '+param-without-input'
+    if fdef:
+        tag += '+function-defaults'
+    if has_table and rng.random() < 0.03:
+        on = on + [on[0]]                       # a repeated key column name: the code takes ulist(on)
+        tag += '+on-repeated'
     line = '(pd %s (L%s) (L%s)%s (D%s) (D%s) %s T:%d)' % (
-        'callr' if (renames or if_none) else 'call',
+        'callr' if (renames or if_none) else 'calld' if fdef else 'call',
         ''.join(' S:' + hexs(p) for p in params), ''.join(' S:' + hexs(c) for c in on),
         (' (D%s) %s' % (''.join(' (%s %s)' % (hexs(k), cell(v)) for k, v in renames), cell(bool(if_none)))) if (renames or if_none) else '',
         ''.join(' (%s %s)' % (hexs(k), cell(v)) for k, v in defaults),
@@ -194,9 +217,12 @@ def generate(rng, tier):
 
 # ------------------------------------------------------------------ implementation runner
 
-def make_f(params, log):
-    env = {'log': log}
-    exec('def f(%s):\n    log.append((%s,))\n    return ("f", %s,)' % (', '.join(params), ', '.join(params), ', '.join(params)), env)
+def make_f(params, log, fdefaults=None):
+    """f(*params) logging its calls; `fdefaults` (name -> value) become python keyword defaults (those parameters are moved
+    behind the others in the SIGNATURE only: the log and the result keep the order of `params`)"""
+    env = {'log': log, 'DEF': fdefaults or {}}
+    sig = [q for q in params if q not in env['DEF']] + ['%s=DEF[%r]' % (q, q) for q in params if q in env['DEF']]
+    exec('def f(%s):\n    log.append((%s,))\n    return ("f", %s,)' % (', '.join(sig), ', '.join(params), ', '.join(params)), env)
     return env['f']
 
 
@@ -223,9 +249,12 @@ def call_impl(sx):
     expiry = dec_input(sx[6])
     today = proto.dec_cell(sx[7])
     log = []
-    p = pyg_base.perdictable(make_f(params, log), on=on, defaults=defaults, renames=renames, if_none=if_none)
+    if sx[1] == 'calld':
+        p = pyg_base.perdictable(make_f(params, log, defaults), on=on)
+    else:
+        p = pyg_base.perdictable(make_f(params, log), on=on, defaults=defaults, renames=renames, if_none=if_none)
     old = _pd.dt
-    _pd.dt = lambda *a, **k: today
+    _pd.dt = lambda *a, **k: today if (a == (0,) and not k) else old(*a, **k)
     try:
         res = guarded(lambda: p(expiry=expiry, **inputs))
     finally:
@@ -244,7 +273,7 @@ def enc_result(res, inputs):
 
 
 def run_line(state, sx):
-    if sx[1] not in ('call', 'callr'):
+    if sx[1] not in ('call', 'callr', 'calld'):
         return 'bad-op'
     res, log, inputs = call_impl(sx)[:3]
     return 'ok (T %s %s)' % (enc_result(res, inputs), enc([tuple(a) for a in log]))
@@ -284,16 +313,31 @@ def compare(case, i, line, ir, mr):
     elif proto.canon(ra[2]) != proto.canon(rb[2]):
         return 'result %s, model %s' % (proto.render(ra[2])[:150], proto.render(rb[2])[:150])
     la, lb = Counter(proto.canon(x) for x in a[2][1:]), Counter(proto.canon(x) for x in b[2][1:])
+    if la == lb and kind == 'table' and max(Counter(rowsa).values() or [1]) == 1 and _keys_unique(ra[2], line):
+        # "each computed row once, IN ROW ORDER": with unique result keys the order of the calls is the (sorted) row order
+        sa, sb = [proto.canon(x) for x in a[2][1:]], [proto.canon(x) for x in b[2][1:]]
+        if sa != sb:
+            return ('divergence', 'same calls of f in another ORDER: %s, model %s' % (sa[:6], sb[:6]))
     if la != lb:
         return 'calls of f differ: %d calls, model %d; extra %s, missing %s' % (sum(la.values()), sum(lb.values()), list(la - lb)[:4], list(lb - la)[:4])
     return None     # same rows and same calls; only an order among equal keys differs (python set order, see ASSUMPTIONS)
+
+
+def _keys_unique(tsx, line):
+    sx = proto.parse(line)
+    on = [proto.dec_cell(a) for a in sx[3][1:]]
+    cols = {unhex(kv[0]): [proto.canon(c) for c in kv[1][1:]] for kv in tsx[1:]}
+    if not all(c in cols for c in on):
+        return False
+    ks = list(zip(*[cols[c] for c in on]))
+    return len(set(ks)) == len(ks)
 
 
 def nontrivial(line, reply):
     if not reply.startswith('ok'):
         return False
     sx = proto.parse(line)
-    k = 7 if sx[1] == 'callr' else 5
+    k = 7 if sx[1] == 'callr' else 5        # call / calld
     is_table = lambda v: isinstance(v, list) and len(v) > 0 and v[0] == 'D'   # noqa: E731
     return any(is_table(kv[1]) for kv in sx[k][1:]) or is_table(sx[k + 1])
 
@@ -356,6 +400,8 @@ def laws(rng, tier, ctx):
     count += 28
     for _ in range(n):
         tag, line = gen_case(rng, full=True)
+        if 'param-without-input' in tag:
+            continue                                # the call raises TypeError by design of the case (correspondence only)
         case = dict(tag='law-' + tag.split('+')[0], lines=[line])
         sx = proto.parse(line)
         count += 1
@@ -363,6 +409,7 @@ def laws(rng, tier, ctx):
             renames = get_renames(sx) or {}
             if_none = sx[1] == 'callr' and proto.dec(sx[5])
             res, log, inputs, on, params, defaults, expiry, today = call_impl(sx)
+            on = list(dict.fromkeys(on))          # a repeated key column name counts once (ulist(as_list(on)))
         except Timeout:
             yield Finding('violation', case, 'the call did not return')
             continue
@@ -396,10 +443,15 @@ def laws(rng, tier, ctx):
                     vals.append(v if ok else defaults[p])
                 else:
                     vals.append(inputs[p])
-            old = lookup(inputs['data'], on, k)[0] if 'data' in inputs else None
+            old, ok_data = lookup(inputs['data'], on, k) if 'data' in inputs else (None, False)
             ex = lookup(expiry, on, k)[0] if isinstance(expiry, dictable) else expiry
-            keep = 'data' in inputs and ex is not None and ex < today and not (if_none and old is None)
-            rows[k] = (tuple(vals), keep, old)
+            if ex is not None and not isinstance(ex, datetime.datetime):
+                ex = datetime.datetime(ex.year, ex.month, ex.day)            # an expiry date given as datetime.date
+            # "a previously computed value is SUPPLIED" is read per row: the data table holds this key
+            keep = ok_data and ex is not None and ex < today and not (if_none and old is None)
+            # outside the quantifier (expiry assigned to a key that was not previously computed): not pinned, see ASSUMPTIONS
+            free = 'data' in inputs and not ok_data and ex is not None and ex < today and not if_none
+            rows[k] = (tuple(vals), keep, old, free)
         if not K:
             if not (res is None or ('data' in inputs and res is inputs['data'])):
                 yield Finding('violation', case, 'no key is present in every table input, yet the call returned %r' % (res,))
@@ -409,14 +461,20 @@ def laws(rng, tier, ctx):
         if not isinstance(res, dictable):
             yield Finding('violation', case, 'expected %d rows, got %r' % (len(K), res))
             continue
-        got = Counter((tuple(ckey2(res[c][i]) for c in on), canon_any(res['data'][i])) for i in range(len(res)))
-        want = Counter((tuple(ckey2(x) for x in k), canon_any(old if keep else ('f',) + vals)) for k, (vals, keep, old) in rows.items())
+        freek = set(tuple(ckey2(x) for x in k) for k, r in rows.items() if r[3])
+        got = Counter((tuple(ckey2(res[c][i]) for c in on), canon_any(res['data'][i])) for i in range(len(res))
+                      if tuple(ckey2(res[c][i]) for c in on) not in freek)
+        want = Counter((tuple(ckey2(x) for x in k), canon_any(old if keep else ('f',) + vals)) for k, (vals, keep, old, free) in rows.items() if not free)
+        if len(res) != len(rows):
+            yield Finding('violation', case, '%d rows, expected one per key: %d' % (len(res), len(rows)))
+            continue
         if got != want:
             yield Finding('violation', case, 'rows %s, expected %s' % (sorted(got - want, key=repr)[:4], sorted(want - got, key=repr)[:4]))
             continue
         gl = Counter(canon_any(tuple(a)) for a in log)
-        wl = Counter(canon_any(vals) for vals, keep, old in rows.values() if not keep)
-        if gl != wl:
+        wl = Counter(canon_any(vals) for vals, keep, old, free in rows.values() if not keep and not free)
+        fl = Counter(canon_any(vals) for vals, keep, old, free in rows.values() if free)
+        if (gl - fl) - wl or wl - gl:                  # every row to compute exactly once; a free row at most once; nothing else
             yield Finding('violation', case, 'f was called on %s, the rows to compute are %s' % (sorted(gl.elements(), key=repr)[:6], sorted(wl.elements(), key=repr)[:6]))
             continue
         ks = [{c: res[c][i] for c in on} for i in range(len(res))]
